@@ -3,9 +3,33 @@
  tracklib/algo/mapping.py mapOnTrack / __projOnTrack)."""
 import math
 from fractions import Fraction as F
-from engine import Prop, fbits, bitsf, tok_list, close
+from engine import Prop, fbits, bitsf, tok_list, close, err_kind
 
 TOL = 1e-9
+
+
+class Plumbing(Exception):
+    """an exception raised while the HARNESS builds the inputs of a call (tracks, observations, coordinates, in-place edits of
+    a sequence) or reads back what it has just built: not an answer of the projection. impl() reports it as
+    {"plumbing": ...}: the oracle does not judge it (it is not about the property), the correspondence does (no model
+    output has that shape)."""
+
+
+def plumb(fn, *a, **kw):
+    try:
+        return fn(*a, **kw)
+    except Plumbing:
+        raise
+    except KeyboardInterrupt:
+        raise
+    except BaseException as e:
+        raise Plumbing("%s: %s" % (type(e).__name__, str(e)[:160]))
+
+
+# names of the analytical features a track of queries / a reference track may carry before the call ("dist" and "edge" are
+# the names mapOnTrack itself writes: a track that was snapped before carries them); values of such a pre-existing feature
+FEAT_NAMES = ["dist", "edge", "speed", "abs_curv", "d", "Dist", "edge2", "hdop_"]
+FEAT_VALUES = [0.0, 0.5, 3.0, 12.25, -1.0, 1e6, 7.0, 99.0]
 
 
 # ------------------------------------------------------------------------------------------
@@ -78,6 +102,50 @@ def is_near_vertical_fp(xs, ys, i, tol):
     return yb != yb or math.isinf(yb) or 4 * math.ulp(abs(yb)) > tol
 
 
+def is_inclusion_fp(xs, ys, i, q, ulps=64):
+    """The inclusion test of the foot on segment i is decided by ROUNDING for the query q: the exact foot of the
+    perpendicular lies on the segment (parameter 0 <= t <= 1, exact rational arithmetic), yet the foot the code computes in
+    doubles (cartesienne, projection_droite: evaluated here with the code's own operations) fails `proj_segment`'s box test,
+    missing the box by at most `ulps` units in the last place of the coordinate concerned. The general form of D17 (an exactly
+    horizontal segment whose ordinate -c / b does not reproduce is the case t anywhere, miss of one ulp): e.g. a segment
+    horizontal up to 1e-9 and a foot 1e-6 from one of its ends, whose ordinate differs from the end's by less than an ulp.
+    Decidable on the input floats; the code then falls back on the nearer END point."""
+    x1, y1, x2, y2 = float(xs[i]), float(ys[i]), float(xs[i + 1]), float(ys[i + 1])
+    x, y = float(q[0]), float(q[1])
+    if not all(finite(v) for v in (x1, y1, x2, y2, x, y)) or (x1 == x2 and y1 == y2):
+        return False
+    u1 = x2 - x1
+    u2 = y2 - y1
+    b = -u1
+    a = u2
+    c = -(a * x1 + b * y1)
+    if b == 0:
+        return False
+    try:
+        xv = -b
+        yv = a
+        norm = math.sqrt(xv * xv + yv * yv)
+        yb = -c / b
+        BH = ((x - 0) * xv + (y - yb) * yv) / norm
+        xp = 0 + BH * xv / norm
+        yp = yb + BH * yv / norm
+    except (ZeroDivisionError, OverflowError, ValueError):
+        return False
+    if not (finite(xp) and finite(yp)):
+        return False
+    inx = (x1 <= xp <= x2) or (x2 <= xp <= x1)
+    iny = (y1 <= yp <= y2) or (y2 <= yp <= y1)
+    if inx and iny:
+        return False
+    ux, uy = fr(x2) - fr(x1), fr(y2) - fr(y1)
+    t = ((fr(x) - fr(x1)) * ux + (fr(y) - fr(y1)) * uy) / (ux * ux + uy * uy)
+    if not (0 <= t <= 1):
+        return False
+    mx = 0.0 if inx else min(abs(xp - x1), abs(xp - x2))
+    my = 0.0 if iny else min(abs(yp - y1), abs(yp - y2))
+    return mx <= ulps * math.ulp(max(abs(x1), abs(x2), abs(xp))) and my <= ulps * math.ulp(max(abs(y1), abs(y2), abs(yp)))
+
+
 def line_d2(px, py, x1, y1, x2, y2):
     """exact squared distance from (px,py) to the LINE through (x1,y1), (x2,y2)"""
     ux, uy = x2 - x1, y2 - y1
@@ -86,7 +154,7 @@ def line_d2(px, py, x1, y1, x2, y2):
     return cr * cr / uu
 
 
-def check_fragile(X, Y, q, d, xp, yp, i, frag, reduced):
+def check_fragile(X, Y, q, d, xp, yp, i, frag, reduced, removed=()):
     """The widest behaviour the code can have when the segments `frag` are numerically vertical: on such a segment it returns
     either the distance to its LINE with a foot whose ordinate is rounding noise, or its nearer end point. None if
     (d, (xp,yp), i) is explained that way (all other segments behaving correctly, those in `reduced` as in D16 / D17)."""
@@ -101,7 +169,7 @@ def check_fragile(X, Y, q, d, xp, yp, i, frag, reduced):
     tol = TOL * max(scale_of(X, Y, q), abs(d))
     lo, hi = [], []
     for j, sg in enumerate(segs):
-        if degenerate(sg):
+        if degenerate(sg) or j in removed:
             continue
         if j in frag:
             lo.append(line_d2(qx, qy, *sg)); hi.append(end_d2(qx, qy, *sg))
@@ -139,10 +207,11 @@ def finite(v):
 
 def out_of_range(X, Y, q):
     """No nearest point at a distance the code can hold: a coordinate of the query or of the polyline is inf / NaN, or the
-    EXACT squared distance from the query to every segment that proj_polyligne does not skip is >= 2**1024 (proj_segment
-    computes squared distances in doubles: they are all inf / NaN there). Decided on the input alone, in exact rational
-    arithmetic. On such an input the property does not constrain the code (it raises UnboundLocalError: no distance is
-    < the sentinel 1e400 = +inf); the correspondence with the model is still checked bit for bit."""
+    EXACT squared distance from the query to every segment that proj_polyligne does not skip (to its first vertex when it
+    skips them all) is >= 2**1024 (proj_segment / proj_polyligne compute squared distances in doubles: they are all inf /
+    NaN there). Decided on the input alone, in exact rational arithmetic. On such an input the property does not constrain
+    the code (no distance is < the sentinel 1e400 = +inf: it answers from the first vertex with the distance inf / NaN, or
+    raises OverflowError at `(x - xproj) ** 2` on Python floats); the correspondence with the model is still checked."""
     vals = [float(v) for v in list(X) + list(Y) + list(q)]
     if not all(finite(v) for v in vals):
         return True
@@ -151,7 +220,9 @@ def out_of_range(X, Y, q):
     qx, qy = fr(float(q[0])), fr(float(q[1]))
     live = [s for j, s in enumerate(segments(X, Y))
             if not (abs(float(X[j]) - float(X[j + 1])) + abs(float(Y[j]) - float(Y[j + 1])) < 1e-16)]
-    return bool(live) and all(seg_d2(qx, qy, *s) >= DMAX2 for s in live)
+    if not live:
+        return len(X) >= 1 and len(Y) >= 1 and (qx - fr(float(X[0]))) ** 2 + (qy - fr(float(Y[0]))) ** 2 >= DMAX2
+    return all(seg_d2(qx, qy, *s) >= DMAX2 for s in live)
 
 
 def zf(v):
@@ -167,10 +238,11 @@ NP_CONT = ("npf", "npi")          # containers whose elements are numpy scalars 
 INT_CONT = ("npi", "int")         # containers of integers (lattice stream only)
 
 
-def check_answer(X, Y, q, d, xp, yp, i, reduced=()):
+def check_answer(X, Y, q, d, xp, yp, i, reduced=(), removed=()):
     """None if (d, (xp,yp), i) is the nearest point of the polyline to q, carried by segment i,
     at distance d; else what fails. `reduced` = indices of segments replaced by their two end
-    points when the minimum is taken (used only by classify() to recognise the listed defects)."""
+    points when the minimum is taken, `removed` = indices of segments left out of the minimum (both used only by
+    classify() to recognise the listed defects; the oracle proper, spec(), passes neither)."""
     for v in (d, xp, yp):
         if not isinstance(v, (int, float)) or isinstance(v, bool) or v != v or math.isinf(v):
             return "non-finite output %r" % ([d, xp, yp],)
@@ -187,7 +259,7 @@ def check_answer(X, Y, q, d, xp, yp, i, reduced=()):
     dq = math.sqrt((qx - fr(xp)) ** 2 + (qy - fr(yp)) ** 2)
     if abs(dq - d) > tol:
         return "returned distance %r differs from the distance %r between the query and the returned point" % (d, dq)
-    m2 = min((end_d2(qx, qy, *s) if j in reduced else seg_d2(qx, qy, *s)) for j, s in enumerate(segs))
+    m2 = min([(end_d2(qx, qy, *s) if j in reduced else seg_d2(qx, qy, *s)) for j, s in enumerate(segs) if j not in removed] or [seg_d2(qx, qy, *segs[i])])
     m = math.sqrt(m2)
     if abs(m - d) > tol:
         return "not-minimal: returned distance %r, minimum distance from the query to the polyline is %r" % (d, m)
@@ -203,15 +275,18 @@ class P(Prop):
         (M, "TV.C20.proj_dist_consistent", "the returned distance is the distance from the query to the returned point (every segment on which it returns)"),
         (M, "TV.C20.proj_segment_min_partial", "non-vertical segment: proj_segment returns and its distance is <= the distance to every point of the segment"),
         (M, "TV.C20.vertical_as_coded", "vertical segment, as coded: ZeroDivisionError or the nearer END point (never the foot)"),
-        (M, "TV.C20.proj_polyline_min_partial", "proj_polyligne: index of a non-skipped segment carrying the point, d = distance to it, d <= distance to every point of every non-vertical non-skipped segment and to the end points of all non-skipped ones"),
-        (M, "TV.C20.proj_polyline_total", "no vertical non-skipped segment and at least one non-skipped segment: proj_polyligne returns (no exception)"),
+        (M, "TV.C20.proj_polyline_min_partial", "proj_polyligne on a polyline with a kept segment: index of a non-skipped segment carrying the point, d = distance to it, d <= distance to every point of every non-vertical non-skipped segment and to the end points of all non-skipped ones"),
+        (M, "TV.C20.proj_polyline_total", "no vertical non-skipped segment and at least one vertex: proj_polyligne returns (no exception), whether or not a segment is kept"),
+        (M, "TV.C20.proj_polyline_all_skipped", "every segment skipped (all vertices coincide up to 1e-16 per segment; a single vertex): returns the FIRST vertex, index 0, d = distance to it; every point of the (t+1)-th segment is within (t+1) * 1e-16 of it, so d is the minimum distance up to that bound (the case repaired by fix 563eeba)"),
+        (M, "TV.C20.proj_polyline_on", "ANY polyline, kept segment or not: vertex i exists, d = distance to the returned point, which lies on segment i when the polyline has >= 2 vertices (is the vertex when it has one)"),
+        (M, "TV.C20.projPolyligne_vs_old", "the repair is conservative: wherever the pre-fix function (projPolyligneOld) returned, the current one returns the same; where it raised UnboundLocalError on a non-empty polyline the current one returns the first vertex"),
         (M, "TV.C20.projOnTrack_spec", "__projOnTrack / mapOnTrack(coord) = proj_polyligne reordered as (point, distance, index)"),
         (M, "TV.C20.mapOnTrack_rows", "mapOnTrack(track): one row per query, in order, row j = projection of query j"),
         (M, "TV.C20.proj_segment_min_fails_on_vertical", "refutation of the full statement: segment (0,0)-(0,8), query (3,4), over every ordered field"),
         (M, "TV.C20.proj_segment_nearest_partial", "non-vertical segment (oblique / horizontal, any direction): returns a point ON the segment, d = distance to it, d <= distance to every point of the segment (the three clauses together)"),
         (M, "TV.C20.proj_segment_horizontal", "horizontal segment, exact arithmetic: returned ordinate = the segment's; query abscissa between the ends -> the foot (x, y1) at distance |y - y1|; minimal in every case"),
         (M, "TV.C20.proj_polyline_vertices", "skipped segments being true zero-length ones: d <= distance to EVERY vertex of the polyline (those of skipped segments included)"),
-        (M, "TV.C20.proj_polyline_nearest_partial", "polyline with no kept vertical segment, skipped ones zero-length, one kept: returns (d, p, i) with p on segment i, d = |q - p|, d <= distance to every point of every segment (skipped included)"),
+        (M, "TV.C20.proj_polyline_nearest_partial", "polyline of >= 2 vertices with no kept vertical segment, skipped ones zero-length (NO segment need be kept: all vertices may coincide): returns (d, p, i) with p on segment i, d = |q - p|, d <= distance to every point of every segment (skipped included)"),
         (M, "TV.C20.projSegmentG_lists", "proj_segment on a list / tuple of Python numbers is the kernel projSegment of the theorems"),
         (M, "TV.C20.projSegmentG_numpy_nonvertical", "proj_segment on numpy scalars (-c / b never raises) equals the kernel on every non-vertical segment"),
         (M, "TV.C20.projPolyligneXY_spec", "proj_polyligne(Xp, Yp, ..) with len(Yp) >= len(Xp) is the kernel on zip(Xp, Yp) (lists; numpy arrays when no kept segment is vertical)"),
@@ -219,20 +294,36 @@ class P(Prop):
         (M, "TV.C20.projOnTrack3_planimetric", "__projOnTrack on 3D positions is planimetric: (ENUCoords(px, py, 0), d, i) with (d, px, py, i) = proj_polyligne on the (X, Y) of track and query; no altitude is read"),
         (M, "TV.C20.mapOnTrack3_coord", "mapOnTrack(coord, track): one (ENUCoords(px, py, 0), d, i), the planimetric projection of the coordinate"),
         (M, "TV.C20.mapOnTrack3_track", "mapOnTrack(track, track): one row per query in order, row j = (ENUCoords(px, py, 0), d, i) the planimetric projection of query j"),
+        (M, "TV.C20.proj_polyline_skipped_partial", "a skipped segment of NON-zero length < 1e-16 one of whose ends is an end of a kept segment: d <= distance from the query to every point of it + 1e-16 (the error made by skipping it is below the threshold)"),
+        (M, "TV.C20.mapOnTrackT_rows", "mapOnTrack(track, track) on track OBJECTS (feature tables, time stamps): the output has exactly the features dist, edge, default time stamps, one observation per query; its positions / dist / edge columns are the point, distance, segment index of THIS projection of query j — whatever features (dist / edge included) the track of queries carried"),
+        (M, "TV.C20.mapOnTrackT_ignores_state", "the result of mapOnTrack(track, track) depends on the positions of the two tracks only, not on their analytical features / time stamps"),
+        (M, "TV.C20.mapOnTrackT_empty", "a track of queries without observation: AnalyticalFeatureError (createAnalyticalFeature on the empty output)"),
+        (M, "TV.C20.mapChain_calls", "chained snapping mapOnTrack(mapOnTrack(q, ref0), ref1) ...: output k is mapOnTrack(output k-1, ref k) — its dist / edge are those of the projection of the previous output's positions, not the dist / edge that output carries"),
+        (M, "TV.C20.proj_polyline_skipped_run", "a RUN of consecutive skipped segments of non-zero length going forward from an end of a kept segment: d <= distance from the query to every point of the (t+1)-th segment of the run + (t+1) * 1e-16"),
+        (M, "TV.C20.proj_polyline_skipped_run_back", "the same for a run going backward to an end of a kept segment: every point of segment w + t of the run is covered up to (r - t) * 1e-16; with the forward form and proj_polyline_min_partial every point of a polyline that has a kept segment is covered"),
+        (M, "TV.C20.vertical_zerodiv_iff", "vertical segment: ZeroDivisionError exactly when the query has the segment's abscissa and a = y2 - y1 lies between y1 and y2 (the harness predicate zerodiv_vertical); an end point otherwise"),
+        (M, "TV.C20.proj_polyline_vertical_case", "any polyline with a kept segment, kept vertical segments included: segment i is kept and EITHER exactly vertical, the returned point being one of its END points, OR non-vertical with the answer right once the kept vertical segments are left out (on segment i, d = |q - p|, d <= every point of every kept non-vertical segment): the model's side of the class vertical-segment"),
+        (M, "TV.C20.mapOnTrackT_nearest_partial", "the property at full strength through the track form, tracks with any state: reference of >= 2 positions (all may coincide) without kept vertical segment, at least one query -> returns; for every query the output's point lies on segment edge[j], dist[j] = distance to it, minimal over every point of every segment"),
     ]
     partial = ["proj_segment_min_partial / proj_segment_nearest_partial / proj_polyline_min_partial / proj_polyline_nearest_partial: the property is proved at full "
                "strength (point on the carrying segment, index, d = |q - p|, d minimal over every point of every segment, skipped zero-length segments included) "
                "for every NON-vertical orientation; for vertical segments the statement is false of the code (D16, pinned by test_geometry.py::testProjSegment; "
-               "proj_segment_min_fails_on_vertical, vertical_as_coded): there only the end points are covered. A skipped segment of non-zero length < 1e-16 is "
-               "covered up to its length. Exact arithmetic: IEEE rounding (D17, horizontal segments) is outside the theorems and sampled by the transfer check; "
+               "proj_segment_min_fails_on_vertical, vertical_as_coded, vertical_zerodiv_iff): there only the end points are covered; proj_polyline_vertical_case states what "
+               "an answer on a polyline WITH kept vertical segments still guarantees (reported segment vertical -> one of its end points; else right w.r.t. the non-vertical ones). A skipped segment of non-zero length < 1e-16 is "
+               "covered up to 1e-16 when it touches a kept segment (proj_polyline_skipped_partial), a run of k consecutive skipped segments from a kept end up to "
+               "k * 1e-16 (proj_polyline_skipped_run, proj_polyline_skipped_run_back: every maximal run touches a kept segment unless all segments are skipped — then proj_polyline_all_skipped: the first vertex is returned, and the polyline is that point up to (number of segments) * 1e-16). mapOnTrackT_nearest_partial carries the same statement through the track form (track objects with features / time stamps, "
+               "chained calls by mapChain_calls). Exact arithmetic: IEEE rounding (D17, horizontal segments) is outside the theorems and sampled by the transfer check; "
                "the numpy form on a vertical segment (inf / nan instead of ZeroDivisionError) is IEEE-only and checked by correspondence"]
     open_statements = ["proj_segment_min (all orientations, vertical included): FALSE of the current code (D16), kept as a comment in Props/C20.lean with its refutation"]
     modelled = ("util/geometry.py cartesienne, projection_droite (b == 0 special case as coded), proj_segment (segment given as list / tuple / numpy array: "
                 "-c / b raises or not), proj_polyligne on its two sequences (lists / tuples / numpy arrays, range(len(Xp) - 1), IndexError on a shorter Yp, "
-                "extra ordinates ignored, near-zero-length segments skipped, strict < minimum, UnboundLocalError); core/track.py Track.getX() / getY() on 3D "
+                "extra ordinates ignored, initial answer Xp[0], Yp[0], 0 (IndexError on an empty sequence), near-zero-length segments skipped, strict < minimum, distance to the first vertex when nothing was kept with `** 2` raising OverflowError on Python floats (the code since fix 563eeba)); core/track.py Track.getX() / getY() on 3D "
                 "positions (ENU / Geo / ECEF: only getX, getY are read); algo/mapping.py __projOnTrack (ENUCoords(xproj, yproj, 0), altitudes never read), "
-                "mapOnTrack with its dispatch on the first argument (coordinate / track of queries, dist and edge columns); Float instance, bit patterns")
-    rule = ("exhaustive lattice scopes, then random polylines of 2..5 (one in nine: 6..30, one in eighty: 31..120) vertices built from oblique / horizontal / "
+                "mapOnTrack with its dispatch on the first argument (coordinate / track of queries, dist and edge columns); the Track branch on track OBJECTS "
+                "(Model/ProjTrack.lean): output = Track(), addObs(Obs(proj[0])) with the default time stamp, createAnalyticalFeature('dist' / 'edge', list) through "
+                "the feature-table model of C01 (Model/Features.lean createC: silent no-op on an existing name, AnalyticalFeatureError on an empty track), the "
+                "track of queries and the reference track with their own features and time stamps, chained calls (mapChain); Float instance, bit patterns")
+    rule = ("exhaustive lattice scopes, then random polylines of 2..5 (one in nine: 6..30, one in eighty: 31..120, one in 1250: 300..1200) vertices built from oblique / horizontal / "
             "vertical / zero-length / collinear (forward and folding back) / back-to-an-earlier-vertex steps in every direction. Streams: integer lattice (exact in "
             "double arithmetic), two-decimal coordinates, longitudes / latitudes with 5 decimals around (2.35, 48.85), projected coordinates around "
             "(650000, 6860000), and 'nearaxis' (two-decimal, vertical / horizontal steps off by 0..1e6 ulps, very short segments 1e-17..1e-3 around the 1e-16 skip "
@@ -241,25 +332,39 @@ class P(Prop):
             "polyline, float / numpy scalar / int for the query, Yp longer or shorter than Xp; positions ENUCoords / GeoCoords / ECEFCoords with altitudes flat, "
             "equal on track and query, only on the track, only on the query, varying, NaN (the projection is planimetric: every clause is checked in the (X, Y) "
             "plane); sequences on ONE track object: project, modify in place (vertex moved, whole track shifted, vertex appended, object replaced), project "
-            "again — each projection checked against the geometry of that moment. Track objects are never recycled within a process (no identity reuse). "
-            "non-trivial = the polyline has at least one segment of non-zero length. Outside the property's domain (an error is accepted there): "
-            "proj_segment on a zero-length segment, a polyline all of whose vertices coincide (up to the 1e-16 under which proj_polyligne skips a segment), "
-            "a Yp shorter than Xp, and an input whose distances are all outside the double range (a non-finite coordinate, or the exact squared "
-            "distance from the query to every non-skipped segment >= 2**1024: proj_polyligne then keeps nothing against its sentinel 1e400 and raises "
-            "UnboundLocalError). Sentinel stream (1 case in 41, appended): proj_polyligne / its two-sequence forms with a query coordinate inf / -inf / "
+            "again (one query in four repeats an earlier query of the sequence) — each projection checked against the geometry of that moment; mapOnTrack(track, track) on track objects that carry STATE (kind mapf, "
+            "1 random case in 13): the track of queries has analytical features of its own (names among dist, edge, speed, abs_curv, ...: one case in two "
+            "has a feature called dist and / or edge, the names mapOnTrack writes) and time stamps, the reference tracks have features, 0..2 further calls are "
+            "chained (the output track of call k, which carries the dist / edge of call k, is the track of queries of call k + 1, on the same / a shifted / "
+            "another reference), one case in twenty passes the reference track object itself as track of queries, one in a hundred an empty track; every "
+            "call is judged on the queries it was given (read from the track of queries just before the call). Track objects are never recycled within a process (no identity reuse). "
+            "non-trivial = in the domain. A polyline (>= 2 vertices) ALL of whose vertices coincide, exactly or up to the 1e-16 under which proj_polyligne skips a segment, is IN the domain since fix 563eeba "
+            "(judged like any other: point on segment 0, d = distance to it = minimum distance; about 1 random polyline in 25 is one, on every stream and entry point, plus 1 sentinel case in 5). "
+            "Outside the property's domain (an error is accepted there): "
+            "proj_segment on a zero-length segment, "
+            "a Yp shorter than Xp, a track of queries without observation, and an input whose distances are all outside the double range (a non-finite coordinate, or the exact squared "
+            "distance from the query to every non-skipped segment — to the first vertex when all are skipped — >= 2**1024: proj_polyligne then keeps nothing against its sentinel 1e400 and answers from "
+            "the first vertex with distance inf / NaN, or raises OverflowError at `** 2` on Python floats). Sentinel stream (1 case in 41, appended): proj_polyligne / its two-sequence forms with a query coordinate inf / -inf / "
             "nan / +-1e200 / +-1e308 / +-max double, or vertices at +-1e308, kept only when out of range in that exact sense; checked against the "
-            "sentinel-faithful model bit for bit, not constrained by the oracle. Failing answers are excused only inside the listed classes: vertical-segment (D16, also its numpy form inf/nan and segments "
-            "that are vertical up to rounding, where the foot built through (0, -c / b) loses its ordinate) and horizontal-segment-fp (D17, also segments "
-            "horizontal up to 64 ulps).")
-    trusted = ["math.sqrt / Float.sqrt correctly rounded; the sentinel 1e400 is the double +inf (driver: 1.0 / 0.0), compared `dist < inf` as in the code "
+            "sentinel-faithful model bit for bit, not constrained by the oracle. Failing answers are excused only inside the listed classes: vertical-segment (D16) and horizontal-segment-fp (D17, also segments "
+            "horizontal up to 64 ulps, and — its general form — any segment and query for which the exact foot lies on the segment while the foot computed in doubles "
+            "with the code's own operations misses the inclusion box by <= 64 ulps: is_inclusion_fp). The class vertical-segment is recognised from the CASE, not from one failure pattern: the query is projected on a "
+            "polyline with a KEPT EXACTLY VERTICAL segment (x1 == x2: b == 0, where projection_droite's special case is wrong and pinned by the test suite) and "
+            "the failing answer (d, p, i) is explained by proj_segment answering anything at all on those segments, everything else being right: i is such a "
+            "segment, or i is not and the answer is right once they are left out of the minimum (p on segment i, d = |q - p|, d minimal over the other "
+            "segments); an exception raised while such a polyline is projected on belongs to the class too (proj_segment is called on every kept segment "
+            "for every query). An index outside 0..n-2, and any failure on a polyline without kept vertical segment, are reported. Also in that class: "
+            "segments vertical up to rounding, where the foot built through (0, -c / b) loses its ordinate (near-vertical finding, recognised by check_fragile).")
+    trusted = ["math.sqrt / Float.sqrt correctly rounded; `v ** 2` is v * v (libm pow(v, 2.0) up to its rounding) and raises OverflowError exactly when v is a finite Python float with an infinite square; the sentinel 1e400 is the double +inf (driver: 1.0 / 0.0), compared `dist < inf` / `distmin == inf` as in the code "
                "(sentinel-faithful forms projPolyligneS / projPolyligneXYS, tied exactly by tie_proj_polyligne_exact); the theorems of Props/C20 are about the "
-               "'no current minimum' forms, equal to them whenever every distance met is < inf (Lemmas/ProjSentinel.lean)"]
+               "'no current minimum' forms, equal to them whenever every distance met is < inf and no square overflows (Lemmas/ProjSentinel.lean)"]
 
     def setup(self):
         from tracklib.util import geometry
         from tracklib.algo import mapping
-        from tracklib.core import ENUCoords, Obs
+        from tracklib.core import ENUCoords, Obs, ObsTime
         from tracklib import Track
+        self.ObsTime = ObsTime
         from tracklib.core import GeoCoords, ECEFCoords
         import numpy
         self.g, self.m, self.E, self.Obs, self.Track, self.np = geometry, mapping, ENUCoords, Obs, Track, numpy
@@ -301,7 +406,8 @@ class P(Prop):
         for k in range(n):
             out.append(self.random_case(rng, streams[k % len(streams)]))
         # the sentinel stream (appended: the cases above are unchanged for a given seed): proj_polyligne on inputs whose
-        # distances are all inf / NaN, where `dist < distmin` never holds against the sentinel 1e400 (UnboundLocalError)
+        # distances are all inf / NaN, where `dist < distmin` never holds against the sentinel 1e400 (the answer then comes from
+        # the lines after the loop: the first vertex, distance inf / NaN, or OverflowError at `** 2` on Python floats)
         for k in range(n // 40):
             out.append(self.nonfinite_case(rng))
         return out
@@ -367,6 +473,9 @@ class P(Prop):
         return (p[0] + 1.0, p[1] + 2.0) if stream == "lattice" else (self.rnd(p[0] + 0.001, stream), self.rnd(p[1] + 0.002, stream))
 
     def rand_query(self, rng, stream, pts):
+        if len(pts) >= 2 and all(abs(p[0] - pts[0][0]) + abs(p[1] - pts[0][1]) < 1e-15 for p in pts) and rng.random() < 0.7:
+            o = self.rand_offset(rng, stream)        # a point-like polyline: the constructions below all give the point itself
+            return [self.rnd(pts[0][0] + o[0], stream), self.rnd(pts[0][1] + o[1], stream)]
         i = rng.randrange(len(pts) - 1)
         (x1, y1), (x2, y2) = pts[i], pts[i + 1]
         ux, uy = x2 - x1, y2 - y1
@@ -431,15 +540,31 @@ class P(Prop):
         pts = [self.rand_xy(rng, stream)]
         while len(pts) < n:
             pts.append(self.step(rng, stream, pts))
-        if all(p == pts[0] for p in pts) and rng.random() < 0.9:
-            pts[-1] = (self.rnd(pts[0][0] + 2.0e-3, stream), self.rnd(pts[0][1] + 1.0e-3, stream)) if stream != "lattice" else (pts[0][0] + 2.0, pts[0][1] + 1.0)   # all-degenerate polylines kept rare (outside the domain)
+        return pts
+
+    def rand_point_polyline(self, rng, stream, n):
+        """a polyline all of whose segments are skipped by proj_polyligne: n coinciding vertices (exactly, or — nearaxis stream /
+        one in three elsewhere but on the lattice — up to steps of 1e-17, below the 1e-16 threshold). In the domain since fix 563eeba."""
+        p = self.rand_xy(rng, stream)
+        pts = [p]
+        tiny = stream == "nearaxis" or (stream != "lattice" and rng.random() < 0.33)
+        while len(pts) < n:
+            q = pts[-1]
+            if tiny and rng.random() < 0.6:
+                q = (q[0] + rng.choice([-1, 0, 1]) * 1e-17, q[1] + rng.choice([-1, 0, 1]) * 1e-17)
+                if abs(pts[-1][0] - q[0]) + abs(pts[-1][1] - q[1]) >= 1e-16:
+                    q = pts[-1]
+            pts.append(q)
         return pts
 
     def random_case(self, rng, stream):
-        kind = rng.choices(["seg", "poly", "polyxy", "map", "proj", "mapt", "seq"], weights=[30, 40, 4, 20, 8, 10, 8])[0]
+        kind = rng.choices(["seg", "poly", "polyxy", "map", "proj", "mapt", "seq", "mapf"], weights=[30, 40, 4, 20, 8, 10, 8, 10])[0]
         r = rng.random()
-        n = 2 if kind == "seg" else (rng.randint(31, 120) if r < 0.0125 else rng.randint(6, 30) if r < 0.125 else rng.randint(2, 5))
+        n = 2 if kind == "seg" else (rng.randint(300, 1200) if r < 0.0008 else rng.randint(31, 120) if r < 0.0125 else rng.randint(6, 30) if r < 0.125 else rng.randint(2, 5))
         pts = self.rand_points(rng, stream, n)
+        if kind != "seg" and rng.random() < 0.04:
+            pts = self.rand_point_polyline(rng, stream, min(n, rng.choice([2, 2, 3, 5, 9])))      # every segment skipped: the polyline is a point
+            n = len(pts)
         X, Y = [p[0] for p in pts], [p[1] for p in pts]
         if kind in ("seg", "poly", "polyxy"):
             conts = ["list", "tuple", "npf"] + (["npi", "int"] if stream == "lattice" else [])
@@ -461,6 +586,8 @@ class P(Prop):
         coords = rng.choices(["ENU", "GEO", "ECEF"], weights=[1, 8, 0] if stream == "geo" else [6, 2, 1])[0]
         if kind == "seq":
             return self.random_seq(rng, stream, pts, coords)
+        if kind == "mapf":
+            return self.random_mapf(rng, stream, pts, coords)
         nq = rng.randint(1, 4) if kind == "mapt" else 1
         alt, Z, QZ = self.rand_alt(rng, n, nq)
         base = {"kind": kind, "stream": stream, "coords": coords, "alt": alt, "X": X, "Y": Y, "Z": Z}
@@ -489,8 +616,10 @@ class P(Prop):
                 which = rng.choice([(0,), (1,), (0, 1)])
                 for j in which:
                     q[j] = rng.choice(B)
+            if how != "vhuge" and rng.random() < 0.2:
+                pts = [pts[0]] * n                       # a point-like polyline: the lines after the loop alone produce the answer
             X, Y = [p[0] for p in pts], [p[1] for p in pts]
-            if any(pts[j] != pts[j + 1] for j in range(n - 1)) and out_of_range(X, Y, q):
+            if out_of_range(X, Y, q):
                 break
         else:
             X, Y, q = [0.0, 1.0, 2.0], [0.0, 1.0, 0.0], ["inf", 0.0]
@@ -503,6 +632,46 @@ class P(Prop):
         return {"kind": kind, "stream": "nonfinite", "cont": rng.choice(["list", "list", "tuple", "npf"]),
                 "qform": rng.choice(["float", "float", "np"]), "X": X, "Y": Y, "q": q}
 
+    def random_mapf(self, rng, stream, pts, coords):
+        """mapOnTrack(track_of_queries, track) on track objects that carry STATE: the track of queries has analytical features
+        of its own ("feats": [[name, values]], names drawn from FEAT_NAMES — "dist" / "edge" included, the names mapOnTrack
+        writes), time stamps ("times"), the reference tracks have features too ("rfeats"); "more": further reference
+        polylines — the OUTPUT track of call k is the track of queries of call k + 1 (chained snapping: it carries the dist /
+        edge of call k); "alias": the track of queries of the first call IS the reference track object."""
+        n = len(pts)
+        nq = 0 if rng.random() < 0.01 else rng.randint(1, 5)
+        alt, Z, QZ = self.rand_alt(rng, n, max(nq, 1))
+        QZ = QZ[:nq]
+        Q = [self.rand_query(rng, stream, pts) for _ in range(nq)]
+        alias = rng.random() < 0.05
+        if alias:
+            Q, QZ, nq = [[p[0], p[1]] for p in pts], list(Z), n
+        more = []
+        for _ in range(rng.choices([0, 1, 2], weights=[5, 4, 1])[0]):
+            how = rng.choice(["same", "shift", "other", "other"])
+            if how == "same":
+                P2 = list(pts)
+            elif how == "shift":
+                tx, ty = self.rand_offset(rng, stream)
+                P2 = [(p[0] + tx, p[1] + ty) for p in pts]
+            else:
+                P2 = self.rand_points(rng, stream, rng.randint(2, 5))
+            Z2 = [0.0] * len(P2) if rng.random() < 0.5 else [rng.choice(self.ALTS) for _ in P2]
+            more.append({"X": [p[0] for p in P2], "Y": [p[1] for p in P2], "Z": Z2})
+        names = rng.sample(FEAT_NAMES[2:], rng.choice([0, 0, 1, 2]))
+        r = rng.random()
+        if r < 0.5:
+            names += rng.choice([["dist"], ["edge"], ["dist", "edge"], ["edge", "dist"]])
+        rng.shuffle(names)
+        feats = [[nm, [rng.choice(FEAT_VALUES) for _ in range(nq)]] for nm in names] if nq else []
+        times = None
+        if rng.random() < 0.5:
+            t0 = float(rng.choice([0, 1000, 86400 * 365, 1600000000]))
+            times = [t0 + 5.0 * j + rng.choice([0.0, 0.5]) for j in range(nq)]
+        rfeats = rng.sample(FEAT_NAMES, rng.choice([0, 0, 1, 2]))
+        return {"kind": "mapf", "stream": stream, "coords": coords, "alt": alt, "X": [p[0] for p in pts], "Y": [p[1] for p in pts], "Z": Z,
+                "more": more, "Q": Q, "QZ": QZ, "feats": feats, "times": times, "rfeats": rfeats, "alias": alias}
+
     def random_seq(self, rng, stream, pts, coords):
         """operations on ONE track object: ["q", x, y, z] project a coordinate; ["qt", [[x, y, z], ..]] project a track of
         queries; ["set", i, x, y, z] move vertex i in place; ["shift", tx, ty] shift every vertex in place;
@@ -513,9 +682,16 @@ class P(Prop):
                 "X": [p[0] for p in pts], "Y": [p[1] for p in pts], "Z": list(Z), "ops": []}
         alts = sorted({v for v in Z if v is not None} | {0.0})
 
+        asked = []
+
         def query():
+            # one query in four is one that was already projected earlier in the sequence (same coordinates, the track having
+            # possibly changed in between): an answer remembered per query would be stale
+            if asked and rng.random() < 0.25:
+                return list(rng.choice(asked))
             q = self.rand_query(rng, stream, pts)
-            return [q[0], q[1], rng.choice(alts + ([None] if alt == "nan" else []))]
+            asked.append([q[0], q[1], rng.choice(alts + ([None] if alt == "nan" else []))])
+            return list(asked[-1])
         ops = case["ops"]
         ops.append(["q"] + query())
         for _ in range(rng.randint(1, 5)):
@@ -576,6 +752,8 @@ class P(Prop):
         if k == "seq":
             return [(X, Y, q[:2], flat(Z) and flat([q[2]])) for (X, Y, Z, q) in self.seq_steps(case)]
         X, Y = self.poly_of(case)
+        if k == "mapf":     # the queries of the FIRST call only (those of the later calls are outputs: see spec_mapf)
+            return [(X, Y, q[:2], flat(case["Z"]) and flat([q[2]])) for q in self.mapf_queries0(case)]
         if k == "mapt":
             QZ = case.get("QZ", [0.0] * len(case["Q"]))
             return [(X, Y, q, flat(case.get("Z", [0.0])) and flat([QZ[j]])) for j, q in enumerate(case["Q"])]
@@ -584,7 +762,7 @@ class P(Prop):
     def describe(self, case):
         X, Y = self.poly_of(case)
         segs = segments(X, Y)
-        t = {"kind": case["kind"], "stream": case.get("stream", "enum"), "vertices": len(X) if len(X) <= 5 else "6-30" if len(X) <= 30 else "31-120"}
+        t = {"kind": case["kind"], "stream": case.get("stream", "enum"), "vertices": len(X) if len(X) <= 5 else "6-30" if len(X) <= 30 else "31-120" if len(X) <= 120 else "300-1200"}
         t["orient"] = "".join(sorted({("z" if degenerate(s) else "v" if s[0] == s[2] else "h" if s[1] == s[3] else "o") for s in segs}))
         if case["kind"] in ("seg", "poly", "polyxy"):
             t["container"] = case.get("cont", "list")
@@ -592,6 +770,11 @@ class P(Prop):
         else:
             t["coords"] = case.get("coords", "ENU")
             t["altitudes"] = case.get("alt", "flat")
+        if case["kind"] == "mapf":
+            nm = [f[0] for f in case.get("feats", [])]
+            t["calls"] = 1 + len(case.get("more", []))
+            t["query_features"] = "none" if not nm else "dist/edge" if ("dist" in nm or "edge" in nm) else "other"
+            t["query_track"] = ("alias" if case.get("alias") else "empty" if not case["Q"] else "timed" if case.get("times") else "untimed")
         return t
 
     def nontrivial(self, case):
@@ -611,13 +794,16 @@ class P(Prop):
             return [int(v) for v in L]
         return list(L)
 
-    def track(self, X, Y, Z=None, coords="ENU"):
+    def track(self, X, Y, Z=None, coords="ENU", times=None):
         """A Track. Every Track object made here stays referenced until the end of the process (emptied once its case is
         over): CPython then never gives a later track the `id` of an earlier one, so that what a case observes depends on
         that case alone (state keyed by object identity is exercised by the "seq" cases, deterministically)."""
         C = self.C[coords]
         Z = [0.0] * len(X) if Z is None else Z
-        T = self.Track([self.Obs(C(x, y, zf(z))) for x, y, z in zip(X, Y, Z)])
+        if times is None:
+            T = plumb(lambda: self.Track([self.Obs(C(x, y, zf(z))) for x, y, z in zip(X, Y, Z)]))
+        else:
+            T = plumb(lambda: self.Track([self.Obs(C(x, y, zf(z)), self.ObsTime.readUnixTime(t)) for x, y, z, t in zip(X, Y, Z, times)]))
         self._live.append(T)
         return T
 
@@ -631,6 +817,16 @@ class P(Prop):
         return [float(d), float(c.getX()), float(c.getY()), int(i), float(c.getZ())]
 
     def impl(self, case):
+        try:
+            return self.impl_(case)
+        except Plumbing as e:
+            return {"plumbing": str(e)}
+        except Exception as e:
+            if case["kind"] == "mapf":      # impl_mapf catches what the calls raise: anything else comes from the harness
+                return {"plumbing": "%s: %s" % (type(e).__name__, str(e)[:160])}
+            raise
+
+    def impl_(self, case):
         self.release()
         k = case["kind"]
         cont = case.get("cont", "list")
@@ -647,7 +843,7 @@ class P(Prop):
         C = self.C[coords]
         if k in ("map", "proj"):
             T = self.track(case["X"], case["Y"], case.get("Z"), coords)
-            pt = C(case["q"][0], case["q"][1], zf(case.get("qz", 0.0)))
+            pt = plumb(C, case["q"][0], case["q"][1], zf(case.get("qz", 0.0)))
             c, d, i = self.projOnTrack(pt, T) if k == "proj" else self.m.mapOnTrack(pt, T)
             r = self.row(c, d, i)
             return {"d": r[0], "p": [r[1], r[2]], "i": r[3], "z": r[4]}
@@ -656,30 +852,88 @@ class P(Prop):
             qt = self.track([q[0] for q in case["Q"]], [q[1] for q in case["Q"]], QZ, coords)
             o = self.m.mapOnTrack(qt, self.track(case["X"], case["Y"], case.get("Z"), coords))
             return {"rows": self.rows_of_track(o), "n": o.size(), "features": sorted(o.getListAnalyticalFeatures())}
+        if k == "mapf":
+            return self.impl_mapf(case, coords)
         if k == "seq":
             T = self.track(case["X"], case["Y"], case["Z"], coords)
             rows = []
             for op in case["ops"]:
                 if op[0] == "q":
-                    rows.append(self.row(*self.m.mapOnTrack(C(op[1], op[2], zf(op[3])), T)))
+                    rows.append(self.row(*self.m.mapOnTrack(plumb(C, op[1], op[2], zf(op[3])), T)))
                 elif op[0] == "qt":
                     qt = self.track([q[0] for q in op[1]], [q[1] for q in op[1]], [q[2] for q in op[1]], coords)
                     rows += self.rows_of_track(self.m.mapOnTrack(qt, T))
                 elif op[0] == "set":
-                    pos = T.getObs(op[1]).position
-                    pos.setX(op[2]); pos.setY(op[3]); pos.setZ(zf(op[4]))
+                    def set_(T=T, op=op):
+                        pos = T.getObs(op[1]).position
+                        pos.setX(op[2]); pos.setY(op[3]); pos.setZ(zf(op[4]))
+                    plumb(set_)
                 elif op[0] == "shift":
-                    for j in range(T.size()):
-                        pos = T.getObs(j).position
-                        pos.setX(pos.getX() + op[1]); pos.setY(pos.getY() + op[2])
+                    def shift_(T=T, op=op):
+                        for j in range(T.size()):
+                            pos = T.getObs(j).position
+                            pos.setX(pos.getX() + op[1]); pos.setY(pos.getY() + op[2])
+                    plumb(shift_)
                 elif op[0] == "app":
-                    T.addObs(self.Obs(C(op[1], op[2], zf(op[3]))))
+                    plumb(lambda: T.addObs(self.Obs(C(op[1], op[2], zf(op[3])))))
                 elif op[0] == "new":
-                    T = self.track(T.getX(), T.getY(), T.getZ(), coords)
+                    T = self.track(*plumb(lambda: (T.getX(), T.getY(), T.getZ())), coords)
                 else:
                     raise ValueError(op[0])
             return {"rows": rows, "n": len(rows)}
         raise ValueError(k)
+
+    # -- mapOnTrack(track, track) on track objects that carry features / time stamps, chained (kind "mapf")
+    def mapf_refs(self, case):
+        return [(case["X"], case["Y"], case["Z"])] + [(r["X"], r["Y"], r["Z"]) for r in case.get("more", [])]
+
+    def mapf_queries0(self, case):
+        """[[x, y, z]]: the track of queries of the first call"""
+        if case.get("alias"):
+            return [[x, y, z] for x, y, z in zip(case["X"], case["Y"], case["Z"])]
+        return [[q[0], q[1], z] for q, z in zip(case["Q"], case["QZ"])]
+
+    def read_positions(self, T):
+        return [[float(T.getX(j)), float(T.getY(j)), float(T.getZ(j))] for j in range(T.size())]
+
+    def impl_mapf(self, case, coords):
+        """{"calls": [one per completed call: {"Q": the positions of the track of queries as read just before the call,
+        "rows", "n", "features", "t"}], and, when a call raised, "err" + "Q" (the queries of that call)}"""
+        refs = [self.track(X, Y, Z, coords) for (X, Y, Z) in self.mapf_refs(case)]
+
+        def feat(T, name, vals):
+            if T.size() > 0:
+                T.createAnalyticalFeature(name, list(vals))
+                if list(T.getAnalyticalFeature(name)) != list(vals):
+                    raise ValueError("feature %s was not stored" % name)
+        for T in refs:
+            for name in case.get("rfeats", []):
+                plumb(feat, T, name, [float(j) for j in range(T.size())])
+        if case.get("alias"):
+            cur = refs[0]
+        else:
+            Q0 = self.mapf_queries0(case)
+            cur = self.track([q[0] for q in Q0], [q[1] for q in Q0], [q[2] for q in Q0], coords, case.get("times"))
+        for name, vals in case.get("feats", []):
+            if not (case.get("alias") and name in case.get("rfeats", [])):
+                plumb(feat, cur, name, vals)
+        calls = []
+        for R in refs:
+            Q = plumb(self.read_positions, cur)
+            try:
+                o = self.m.mapOnTrack(cur, R)
+                call = {"Q": Q, "rows": self.rows_of_track(o), "n": o.size(), "features": sorted(o.getListAnalyticalFeatures())}
+            except BaseException as e:
+                if isinstance(e, KeyboardInterrupt):
+                    raise
+                return {"calls": calls, "err": err_kind(e), "detail": str(e)[:200], "Q": Q}
+            try:
+                call["t"] = [float(o.getObs(j).timestamp.toAbsTime()) for j in range(o.size())]
+            except Exception:
+                call["t"] = None
+            calls.append(call)
+            cur = o
+        return {"calls": calls}
 
     def rows_of_track(self, o):
         D, Ed = o.getAnalyticalFeature("dist"), o.getAnalyticalFeature("edge")
@@ -695,10 +949,12 @@ class P(Prop):
             if cont == "list":
                 return ["C20.seg " + " ".join(fbits(v) for v in list(case["s"]) + list(case["q"]))]
             return ["C20.segg " + np_ + " " + " ".join(fbits(v) for v in list(case["s"]) + list(case["q"]))]
-        if k == "poly" and cont == "list":
+        # `(x - xproj) ** 2` after the loop: a numpy scalar (numpy container or numpy query) never raises, a Python float does on overflow
+        npq = "1" if (cont in NP_CONT or case.get("qform", "float") == "np") else "0"
+        if k == "poly" and cont == "list" and npq == "0":
             return ["C20.poly %s %s %s %s" % (fl(case["X"]), fl(case["Y"]), fbits(case["q"][0]), fbits(case["q"][1]))]
         if k in ("poly", "polyxy"):
-            return ["C20.polyxy %s %s %s %s %s" % (np_, fl(case["X"]), fl(case["Y"]), fbits(case["q"][0]), fbits(case["q"][1]))]
+            return ["C20.polyxy %s %s %s %s %s %s" % (np_, npq, fl(case["X"]), fl(case["Y"]), fbits(case["q"][0]), fbits(case["q"][1]))]
         if k in ("map", "proj"):
             if "Z" not in case:
                 return ["C20.map %s %s %s %s" % (fl(case["X"]), fl(case["Y"]), fbits(case["q"][0]), fbits(case["q"][1]))]
@@ -713,11 +969,50 @@ class P(Prop):
         if k == "seq":
             return ["C20.map3 %s %s %s %s %s %s" % (fl(X), fl(Y), fl(Z), fbits(q[0]), fbits(q[1]), fbits(zf(q[2])))
                     for (X, Y, Z, q) in self.seq_steps(case)]
+        if k == "mapf":
+            Q0 = self.mapf_queries0(case)
+            feats = list(case.get("feats", []))
+            if case.get("alias"):       # the track of queries is the reference track: it carries the reference's features too
+                rf = [nm for nm in case.get("rfeats", [])]
+                feats = [[nm, [float(j) for j in range(len(Q0))]] for nm in rf] + [f for f in feats if f[0] not in rf]
+            if not Q0:
+                feats = []
+            names = ",".join(f[0] for f in feats) or "_"
+            cols = ";".join(fl(f[1]) for f in feats) or "_"
+            times = case.get("times") if (case.get("times") is not None and not case.get("alias")) else [0.0] * len(Q0)
+            refs = "|".join("%s;%s;%s" % (fl(X), fl(Y), fl(Z)) for (X, Y, Z) in self.mapf_refs(case))
+            return ["C20.mapf %s %s %s %s %s %s %s" % (names, cols, fl([q[0] for q in Q0]), fl([q[1] for q in Q0]), fl([q[2] for q in Q0]),
+                                                       fl(times), refs)]
 
-    ERR = {"zerodiv": "err:zerodiv", "unbound": "err:UnboundLocalError", "index": "err:index"}
+    ERR = {"zerodiv": "err:zerodiv", "index": "err:index", "overflow": "err:OverflowError", "af": "err:AnalyticalFeatureError"}
+
+    def decode_mapf(self, case, replies):
+        r = replies[0].split()
+        if r[0] == "ok":
+            out, toks = {}, r[1:]
+        elif r[0] == "err" and len(r) >= 2:
+            out, toks = {"err": self.ERR[r[1]]}, r[2:]
+        else:
+            raise ValueError(replies[0])
+        calls = []
+        for tok in toks:
+            names, ts, rows = tok.split("/")
+            rr = []
+            for item in ([] if rows == "_" else rows.split(";")):
+                f = item.split(",")
+                e = bitsf(f[4])
+                if not float(e).is_integer():
+                    raise ValueError(tok)
+                rr.append([bitsf(f[3]), bitsf(f[0]), bitsf(f[1]), int(e), bitsf(f[2])])
+            calls.append({"rows": rr, "n": len(rr), "features": sorted([] if names == "_" else names.split(",")),
+                          "t": [] if ts == "_" else [bitsf(v) for v in ts.split(",")]})
+        out["calls"] = calls
+        return out
 
     def decode(self, case, replies):
         k = case["kind"]
+        if k == "mapf":
+            return self.decode_mapf(case, replies)
         if k == "seq":
             rows = []
             for rep in replies:         # the first exception aborts the sequence
@@ -750,8 +1045,52 @@ class P(Prop):
                 rows.append([bitsf(f[3]), bitsf(f[0]), bitsf(f[1]), int(f[4]), bitsf(f[2])])
         return {"rows": rows, "n": len(rows), "features": ["dist", "edge"]}
 
+    def compare_mapf(self, case, a, m):
+        """calls compared one by one; where the property leaves freedom (a tie) the implementation's answer is validated, and
+        so are the calls after it (their queries are then no longer those of the model)"""
+        strip = lambda o: dict({k: v for k, v in o.items() if k not in ("detail", "Q", "calls")},
+                               calls=[{k: v for k, v in c.items() if k != "Q"} for c in o.get("calls", [])])
+        if "calls" not in a or "calls" not in m:
+            return "impl=%s model=%s" % (a, m)
+        sa, sm = strip(a), strip(m)
+        if close(sa, sm, self.rel_tol):
+            return None
+        bad = "impl=%s model=%s" % (sa, sm)
+        refs = self.mapf_refs(case)
+        diverged = False
+        for k, ca in enumerate(a["calls"]):
+            if k >= len(refs):
+                return bad
+            X, Y, _ = refs[k]
+            cm = m["calls"][k] if k < len(m["calls"]) else None
+            if not diverged:
+                if cm is None or {kk: v for kk, v in ca.items() if kk not in ("rows", "Q")} != {kk: v for kk, v in cm.items() if kk != "rows"}:
+                    return bad
+                if len(ca["rows"]) != len(cm["rows"]) or len(ca["Q"]) != len(ca["rows"]):
+                    return bad
+            for j, ra in enumerate(ca["rows"]):
+                if not diverged and close(ra, cm["rows"][j], self.rel_tol):
+                    continue
+                if j >= len(ca["Q"]) or self.classify_one(X, Y, ca["Q"][j][:2], tuple(ra[:4])) is None:
+                    return bad
+                if not diverged:
+                    rm = cm["rows"][j]
+                    if self.classify_one(X, Y, ca["Q"][j][:2], tuple(rm[:4])) is None or not close([ra[0], ra[4]], [rm[0], rm[4]], self.rel_tol):
+                        return bad
+                    if not close(ra[1:3], rm[1:3], self.rel_tol):
+                        diverged = True      # another, equally near point: the next call projects other queries than the model's
+        if diverged:
+            return bad if ("err" in a and self.mapf_err_class(case, a) is None) else None
+        if len(a["calls"]) != len(m["calls"]) or a.get("err") != m.get("err"):
+            return bad
+        return None
+
     def compare(self, case, impl_out, model_out):
         a = {k: v for k, v in impl_out.items() if k != "detail"}
+        if "plumbing" in a:
+            return "the harness could not build the inputs of the call (%s); model=%s" % (a["plumbing"], model_out)
+        if case["kind"] == "mapf":
+            return self.compare_mapf(case, a, model_out)
         if close(a, model_out, self.rel_tol):
             return None
         # freedom left by the property: a tie (same distance reached on two segments / at two points). The two
@@ -790,27 +1129,130 @@ class P(Prop):
         return any(out_of_range(X, Y, q) for (X, Y, q, _) in self.queries_of(case))
 
     def in_domain(self, case):
+        if case["kind"] == "mapf":
+            Q0 = self.mapf_queries0(case)
+            return not self.mapf_unconstrained(case["X"], case["Y"], Q0)
         if case["kind"] == "polyxy" and len(case["Y"]) < len(case["X"]):
             return False        # a Yp shorter than Xp is not a polyline
         if self.out_of_range(case):
             return False        # every distance is outside the double range: no nearest point to return
         if case["kind"] == "seg":
             return not degenerate(segments(*self.poly_of(case))[0])
-        # a polyline all of whose segments are shorter than 1e-16 (the threshold under which proj_polyligne skips a
-        # segment as zero-length) is a single point as far as the property is concerned
-        return all(any(abs(float(X[j]) - float(X[j + 1])) + abs(float(Y[j]) - float(Y[j + 1])) >= 1e-16 for j in range(len(X) - 1))
-                   for (X, Y, _, _) in self.queries_of(case))
+        # a polyline of >= 2 vertices all of whose segments are shorter than 1e-16 (the threshold under which proj_polyligne
+        # skips a segment as zero-length) is a polyline with zero-length segments: in the domain (its nearest point is the
+        # point it is). A single vertex is not a polyline.
+        return all(len(X) >= 2 for (X, Y, _, _) in self.queries_of(case))
+
+    # -- the oracle on chained calls on track objects: every call is judged on the queries it was GIVEN (read from the track
+    #    of queries just before the call) and on the reference polyline of that call
+    @staticmethod
+    def live_polyline(X, Y):
+        return any(abs(float(X[j]) - float(X[j + 1])) + abs(float(Y[j]) - float(Y[j + 1])) >= 1e-16 for j in range(len(X) - 1))
+
+    def mapf_unconstrained(self, X, Y, Q):
+        """the property says nothing about this call: no query, a reference with fewer than two positions, or distances outside the double range"""
+        return (not Q) or len(X) < 2 or any(out_of_range(X, Y, q[:2]) for q in Q)
+
+    def mapf_err_class(self, case, out):
+        """class of the exception that stopped the chain: "outside" (the property does not constrain that call), the listed
+        class "vertical-segment" (ZeroDivisionError of D16), or None"""
+        refs = self.mapf_refs(case)
+        k = len(out.get("calls", []))
+        Q = out.get("Q")
+        if k >= len(refs) or Q is None:
+            return None
+        X, Y, _ = refs[k]
+        if self.mapf_unconstrained(X, Y, Q):
+            return "outside"
+        if out["err"] == "err:zerodiv" and any(self.zerodiv_vertical(X, Y, q[:2]) for q in Q):
+            return "vertical-segment"
+        if self.kept_vertical(X, Y) and out["err"] != "err:AnalyticalFeatureError":
+            return "vertical-segment"      # the case, not the pattern (see classify); the feature-table error is not raised by a projection
+        return None
+
+    def mapf_rows(self, case, out):
+        """[(call number, X, Y, query [x, y], flat?, row)] for every row of every completed call"""
+        refs = self.mapf_refs(case)
+        res = []
+        for k, call in enumerate(out.get("calls", [])[:len(refs)]):
+            X, Y, Z = refs[k]
+            for q, r in zip(call["Q"], call["rows"]):
+                res.append((k, X, Y, q[:2], flat(Z) and flat([None if q[2] != q[2] else q[2]]), r))
+        return res
+
+    def spec_mapf(self, case, out):
+        refs = self.mapf_refs(case)
+        calls = out.get("calls", [])
+        first = None
+        for k, call in enumerate(calls[:len(refs)]):
+            X, Y, Z = refs[k]
+            Q = call["Q"]
+            if self.mapf_unconstrained(X, Y, Q):
+                return first      # nothing stated about this call, nor about what is chained on its output
+            if call["n"] != len(Q) or len(call["rows"]) != len(Q):
+                return "call %d: mapOnTrack returned %d observations for %d queries" % (k, call["n"], len(Q))
+            if "dist" not in call["features"] or "edge" not in call["features"]:
+                return "call %d: mapOnTrack output carries the features %s (no dist / edge to read the distance and the segment from)" % (k, call["features"])
+        for (k, X, Y, q, isflat, r) in self.mapf_rows(case, out):
+            if self.mapf_unconstrained(X, Y, calls[k]["Q"]):
+                break
+            d, xp, yp, i, z = r
+            if isflat and z != 0.0:
+                return "call %d, query %s: mapOnTrack returned a point with z = %r on a flat track" % (k, q, z)
+            w = check_answer(X, Y, q, d, xp, yp, i)
+            if w:
+                msg = "call %d (mapOnTrack(track, track), track of queries %s), query %s: %s" % (
+                    k, "= output of call %d" % (k - 1) if k else "with the features %s" % [f[0] for f in case.get("feats", [])], q, w)
+                if self.classify_one(X, Y, q, (d, xp, yp, i)) is None:
+                    return msg
+                first = first or msg
+        if "err" in out:
+            if self.mapf_err_class(case, out) == "outside":
+                return first
+            return first or "call %d raised %s" % (len(calls), out["err"])
+        return first
+
+    def classify_mapf(self, case, out, msg):
+        refs = self.mapf_refs(case)
+        calls = out.get("calls", [])
+        classes = []
+        for k, call in enumerate(calls[:len(refs)]):
+            X, Y, Z = refs[k]
+            if self.mapf_unconstrained(X, Y, call["Q"]):
+                break
+            if call["n"] != len(call["Q"]) or len(call["rows"]) != len(call["Q"]) or "dist" not in call["features"] or "edge" not in call["features"]:
+                return None
+            for q, r in zip(call["Q"], call["rows"]):
+                if flat(Z) and flat([None if q[2] != q[2] else q[2]]) and r[4] != 0.0:
+                    return None
+                c = self.classify_one(X, Y, q[:2], tuple(r[:4]))
+                if c is None:
+                    return None
+                if c != "ok":
+                    classes.append(c)
+        else:
+            if "err" in out:
+                c = self.mapf_err_class(case, out)
+                if c is None:
+                    return None
+                if c != "outside":
+                    classes.append(c)
+        return classes[0] if classes else None
 
     def spec(self, case, out):
         """The projection is PLANIMETRIC (proj_segment / proj_polyligne take x, y only; mapOnTrack reads getX(), getY()):
         every clause — point on the carrying segment, distance to the returned point, minimum distance — is checked in
         the (X, Y) plane, whatever the altitudes of the track and of the query. The third coordinate of the returned
         point is constrained only when everything is flat (a point of a polyline at altitude 0 has altitude 0)."""
+        if "plumbing" in out:
+            return None         # the harness failed to build the inputs (see Plumbing): not an answer of the projection, nothing to judge
+        if case["kind"] == "mapf":
+            return self.spec_mapf(case, out)
         if self.out_of_range(case):
             return None         # all distances inf / NaN (non-finite or overflowing coordinates): nothing to constrain, whatever is returned or raised
         if not self.in_domain(case):
             if "err" in out or case["kind"] == "polyxy":
-                return None     # zero-length segment / single-point polyline / malformed sequences: outside the property's domain
+                return None     # proj_segment on a zero-length segment / single-vertex polyline / malformed sequences: outside the property's domain
         if "err" in out:
             return "raised %s" % out["err"]
         k = case["kind"]
@@ -818,8 +1260,8 @@ class P(Prop):
         if k in ("mapt", "seq"):
             if out["n"] != len(qs) or len(out["rows"]) != len(qs):
                 return "mapOnTrack returned %d observations for %d queries" % (out["n"], len(qs))
-        if k == "mapt" and out["features"] != ["dist", "edge"]:
-            return "mapOnTrack output carries the features %s" % out["features"]
+        if k == "mapt" and not ("dist" in out["features"] and "edge" in out["features"]):
+            return "mapOnTrack output carries the features %s (no dist / edge to read the distance and the segment from)" % out["features"]
         first = None
         for (X, Y, q, isflat, d, xp, yp, i, z) in self.rows_of(case, out):
             if z is not None and isflat and z != 0.0:
@@ -838,7 +1280,7 @@ class P(Prop):
         segs = segments(X, Y)
         live = [j for j, s in enumerate(segs) if not (abs(float(X[j]) - float(X[j + 1])) + abs(float(Y[j]) - float(Y[j + 1])) < 1e-16)]
         vert = [j for j in live if is_vertical(segs[j])]
-        hfp = [j for j in live if is_horizontal_fp(X, Y, j) or is_near_horizontal_fp(X, Y, j)]
+        hfp = [j for j in live if is_horizontal_fp(X, Y, j) or is_near_horizontal_fp(X, Y, j) or is_inclusion_fp(X, Y, j, q)]
         if row is None:
             return None
         d, xp, yp, i = row
@@ -846,17 +1288,67 @@ class P(Prop):
             return "ok"
         if any(isinstance(v, float) and (v != v or math.isinf(v)) for v in (d, xp, yp)):
             # numpy form of D16: `-c / b` with b == 0 yields inf / nan instead of raising
-            return "vertical-segment" if self.zerodiv_vertical(X, Y, q) else None
+            if self.zerodiv_vertical(X, Y, q):
+                return "vertical-segment"
+            ok_i = isinstance(i, int) and not isinstance(i, bool) and i in vert
+            return "vertical-segment" if ok_i else None      # non-finite values built on a kept vertical segment (see vertical_case)
         if vert and check_answer(X, Y, q, d, xp, yp, i, reduced=vert) is None:
             return "vertical-segment"
         if hfp and check_answer(X, Y, q, d, xp, yp, i, reduced=hfp) is None:
             return "horizontal-segment-fp"
         if vert and hfp and check_answer(X, Y, q, d, xp, yp, i, reduced=vert + hfp) is None:
             return "vertical-segment"
+        if len(hfp) > 1:
+            # D17 is per segment: the inclusion test of each fp-horizontal segment fails or not on its own rounding. The
+            # answer is explained iff it is right once exactly the fp-horizontal segments that are NEARER than the returned
+            # distance are reduced to their end points (reducing fewer gives a smaller minimum, reducing more a larger one).
+            tol_ = TOL * max(scale_of(X, Y, q), abs(d))
+            qx, qy = fr(q[0]), fr(q[1])
+            S = [j for j in hfp if math.sqrt(seg_d2(qx, qy, *segs[j])) < d - tol_]
+            if S and len(S) < len(hfp):
+                if check_answer(X, Y, q, d, xp, yp, i, reduced=S) is None:
+                    return "horizontal-segment-fp"
+                if vert and check_answer(X, Y, q, d, xp, yp, i, reduced=vert + S) is None:
+                    return "vertical-segment"
         tol = TOL * max(scale_of(X, Y, q), abs(d))
         frag = [j for j in live if is_near_vertical_fp(X, Y, j, tol)]
         if frag and check_fragile(X, Y, q, d, xp, yp, i, frag, vert + hfp) is None:
             return "vertical-segment"      # numerically vertical: same flaw (the line is parametrised by its intercept (0, -c / b))
+        return self.vertical_case(X, Y, q, row, live, vert, hfp, frag)
+
+    def vertical_case(self, X, Y, q, row, live, vert, hfp, frag):
+        """The listed finding `vertical-segment` as a CASE (geometry of the input), not as one failure pattern: on a kept,
+        exactly vertical segment (b == 0) proj_segment is defective (projection_droite's special case returns (x, a): pinned by
+        the test suite), so WHATEVER it answers there is that finding. A failing answer (d, p, i) of a query belongs to the
+        class iff it is explained by proj_segment answering anything at all on the kept vertical segments and everything else
+        being right:
+          * i is a kept vertical segment (the answer is the one proj_segment built on it), or
+          * i is not, and the answer is right once the kept vertical segments are left out of the minimum (point on segment
+            i, d = |q - p|, d minimal over the other segments — fp-horizontal ones as in D17, numerically vertical ones as
+            in the near-vertical finding): the defective calls reported something not smaller.
+        An index that is not an integer in 0..n-2, or a failure that involves no vertical segment, is never in the class."""
+        if not vert:
+            return None
+        d, xp, yp, i = row
+        n = len(X)
+        if isinstance(i, bool) or not isinstance(i, int) or not (0 <= i <= n - 2):
+            return None
+        if i in vert:
+            return "vertical-segment"
+        out = [j for j in range(n - 1) if j in vert or j not in live]
+        if check_answer(X, Y, q, d, xp, yp, i, removed=out) is None:
+            return "vertical-segment"
+        if hfp and check_answer(X, Y, q, d, xp, yp, i, reduced=hfp, removed=out) is None:
+            return "vertical-segment"
+        if len(hfp) > 1 and all(isinstance(v, (int, float)) and finite(v) for v in (d, xp, yp)):
+            tol_ = TOL * max(scale_of(X, Y, q), abs(d))
+            qx, qy = fr(q[0]), fr(q[1])
+            segs = segments(X, Y)
+            S = [j for j in hfp if math.sqrt(seg_d2(qx, qy, *segs[j])) < d - tol_]
+            if S and len(S) < len(hfp) and check_answer(X, Y, q, d, xp, yp, i, reduced=S, removed=out) is None:
+                return "vertical-segment"
+        if frag and check_fragile(X, Y, q, d, xp, yp, i, frag, hfp, removed=out) is None:
+            return "vertical-segment"
         return None
 
     def zerodiv_vertical(self, X, Y, q):
@@ -868,9 +1360,18 @@ class P(Prop):
                 return True
         return False
 
+    @staticmethod
+    def kept_vertical(X, Y):
+        """the polyline has an exactly vertical segment (x1 == x2, b == 0) that proj_polyligne does not skip: proj_segment is
+        called on it for every query, whatever the query — the input of the listed finding `vertical-segment`"""
+        return any(float(X[j]) == float(X[j + 1]) and float(Y[j]) != float(Y[j + 1])
+                   and not (abs(float(X[j]) - float(X[j + 1])) + abs(float(Y[j]) - float(Y[j + 1])) < 1e-16) for j in range(len(X) - 1))
+
     def classify(self, case, impl_out, msg):
-        if not msg or impl_out is None:
+        if not msg or impl_out is None or "plumbing" in impl_out:
             return None
+        if case["kind"] == "mapf":
+            return self.classify_mapf(case, impl_out, msg)
         if case["kind"] == "polyxy" and len(case["Y"]) < len(case["X"]):
             return None
         qs = self.queries_of(case)
@@ -879,10 +1380,16 @@ class P(Prop):
                 # an earlier query of a mapOnTrack(track) call / of a sequence must not hide a different failure: every
                 # query before the raising one is not observable, so the exception is all there is to classify
                 return "vertical-segment"
+            if any(self.kept_vertical(X, Y) for (X, Y, q, _) in qs):
+                # the class is the CASE: an exception raised while a polyline with a kept exactly vertical segment is
+                # projected on (proj_segment is called on that segment for every query) is the listed finding, whichever
+                # exception the defective branch raises and for whichever query; on a polyline without such a segment
+                # every exception is reported
+                return "vertical-segment"
             return None
         if case["kind"] in ("mapt", "seq") and (impl_out.get("n") != len(qs) or len(impl_out.get("rows", [])) != len(qs)):
             return None
-        if case["kind"] == "mapt" and impl_out.get("features") != ["dist", "edge"]:
+        if case["kind"] == "mapt" and not ("dist" in impl_out.get("features", []) and "edge" in impl_out.get("features", [])):
             return None
         classes = []
         for (X, Y, q, isflat, d, xp, yp, i, z) in self.rows_of(case, impl_out):
@@ -896,8 +1403,69 @@ class P(Prop):
         return classes[0] if classes else None
 
     # ------------------------------------------------------------------ shrinking / search
+    def shrink_mapf(self, case):
+        more = case.get("more", [])
+        if case.get("alias"):
+            Q0 = self.mapf_queries0(case)
+            yield dict(case, alias=False, Q=[q[:2] for q in Q0], QZ=[q[2] for q in Q0], times=None,
+                       feats=[[nm, [float(j) for j in range(len(Q0))]] for nm in case.get("rfeats", [])] + [f for f in case.get("feats", []) if f[0] not in case.get("rfeats", [])])
+            return
+        if more:
+            yield dict(case, more=more[:-1])
+            yield dict(case, X=more[0]["X"], Y=more[0]["Y"], Z=more[0]["Z"], more=more[1:])
+        feats = case.get("feats", [])
+        for j in range(len(feats)):
+            yield dict(case, feats=feats[:j] + feats[j + 1:])
+        if case.get("times") is not None:
+            yield dict(case, times=None)
+        if case.get("rfeats"):
+            yield dict(case, rfeats=[])
+        Q = case["Q"]
+        for j in range(len(Q)):
+            if len(Q) > 1:
+                yield dict(case, Q=Q[:j] + Q[j + 1:], QZ=case["QZ"][:j] + case["QZ"][j + 1:],
+                           feats=[[f[0], f[1][:j] + f[1][j + 1:]] for f in feats],
+                           times=None if case.get("times") is None else case["times"][:j] + case["times"][j + 1:])
+        if case.get("coords", "ENU") != "ENU":
+            yield dict(case, coords="ENU")
+        if not (flat(case["Z"]) and flat(case["QZ"]) and all(flat(r["Z"]) for r in more)):
+            yield dict(case, alt="flat", Z=[0.0] * len(case["Z"]), QZ=[0.0] * len(Q), more=[dict(r, Z=[0.0] * len(r["Z"])) for r in more])
+        if not feats and not more and case.get("times") is None and not case.get("rfeats") and Q:
+            yield {"kind": "mapt", "coords": case.get("coords", "ENU"), "X": case["X"], "Y": case["Y"], "Z": case["Z"], "Q": Q, "QZ": case["QZ"]}
+        n = len(case["X"])
+        for j in range(n):
+            if n > 2:
+                yield dict(case, X=case["X"][:j] + case["X"][j + 1:], Y=case["Y"][:j] + case["Y"][j + 1:], Z=case["Z"][:j] + case["Z"][j + 1:])
+        for a, r in enumerate(more):
+            for j in range(len(r["X"])):
+                if len(r["X"]) > 2:
+                    yield dict(case, more=more[:a] + [{"X": r["X"][:j] + r["X"][j + 1:], "Y": r["Y"][:j] + r["Y"][j + 1:], "Z": r["Z"][:j] + r["Z"][j + 1:]}] + more[a + 1:])
+        for f in range(len(feats)):
+            for j, v in enumerate(feats[f][1]):
+                if v != 0.0:
+                    yield dict(case, feats=feats[:f] + [[feats[f][0], feats[f][1][:j] + [0.0] + feats[f][1][j + 1:]]] + feats[f + 1:])
+
+    def mutate_mapf(self, case, rng):
+        """neighbours of a case on track objects: its shrunk variants, the same call with the track of queries carrying a
+        `dist` / an `edge` feature of its own, and the same chain continued by one more call on the first reference"""
+        for c in self.shrink_mapf(case):
+            yield c
+        if case.get("alias"):
+            return
+        names = [f[0] for f in case.get("feats", [])]
+        nq = len(case["Q"])
+        for nm in ("dist", "edge"):
+            if nm not in names and nq:
+                yield dict(case, feats=case.get("feats", []) + [[nm, [FEAT_VALUES[(j + 1) % len(FEAT_VALUES)] for j in range(nq)]]])
+        if len(case.get("more", [])) < 2:
+            yield dict(case, more=case.get("more", []) + [{"X": case["X"], "Y": case["Y"], "Z": case["Z"]}])
+
     def shrink(self, case):
         k = case["kind"]
+        if k == "mapf":
+            for c in self.shrink_mapf(case):
+                yield c
+            return
         if k == "seq":
             ops = case["ops"]
             for j in range(len(ops)):
@@ -981,6 +1549,10 @@ class P(Prop):
                 yield dict(case, q=qq)
 
     def mutate(self, case, rng):
+        if case["kind"] == "mapf":
+            for c in self.mutate_mapf(case, rng):
+                yield c
+            return
         if case["kind"] == "seq":
             for (X, Y, Z, q) in self.seq_steps(case):
                 yield {"kind": "map", "coords": case.get("coords", "ENU"), "X": X, "Y": Y, "Z": Z, "q": q[:2], "qz": q[2]}
@@ -988,6 +1560,12 @@ class P(Prop):
         if case["kind"] == "mapt":
             for c in self.shrink(case):
                 yield c
+            if "Z" in case:     # the same call on track objects that carry state (features named dist / edge, a second call)
+                base = {"kind": "mapf", "coords": case.get("coords", "ENU"), "X": case["X"], "Y": case["Y"], "Z": case["Z"], "more": [],
+                        "Q": case["Q"], "QZ": case.get("QZ", [0.0] * len(case["Q"])), "feats": [], "times": None, "rfeats": [], "alias": False}
+                for c in self.mutate_mapf(base, rng):
+                    if c.get("kind") == "mapf" and (c.get("feats") or c.get("more")):
+                        yield c
             return
         if any(isinstance(v, str) for v in case["q"]):
             return
@@ -1004,16 +1582,13 @@ P.theorems = P.theorems + [
     ("TracklibVerif.Tie.C20", "TV.Tie.C20.tie_proj_segment", "the translation of the CURRENT source of geometry.proj_segment equals the model's projSegment on all arguments, exceptions included"),
 ]
 P.theorems = P.theorems + [
-    ("TracklibVerif.Tie.C20", "TV.Tie.C20.tie_proj_polyligne", "the translation of the CURRENT source of geometry.proj_polyligne (for loop, sentinel 1e400 = inf, continue, possibly-unbound result) equals the model's projPolyligneXY (np=false, eps=1e-16) on all arguments whose kept distances are < inf, exceptions included (IndexError, ZeroDivisionError, UnboundLocalError)"),
-    ("TracklibVerif.Tie.C20", "TV.Tie.C20.tie_proj_polyligne_pairs", "the translated proj_polyligne on the abscissas/ordinates of a vertex list equals the kernel model projPolyligne on the vertices (same sentinel hypothesis), exceptions included"),
-    ("TracklibVerif.Tie.C20", "TV.Tie.C20.proj_polyligne_sentinel_deviation", "the sentinel hypothesis cannot be dropped: on one kept segment whose distance is not < inf the code raises UnboundLocalError while the model returns the segment"),
-]
-P.theorems = P.theorems + [
-    ("TracklibVerif.Tie.C20", "TV.Tie.C20.tie_proj_polyligne_exact", "EXACT (model correction): the translation of the CURRENT source of geometry.proj_polyligne equals the sentinel-faithful model projPolyligneXYS (np=false, same sentinel inf, eps=1e-16) on ALL arguments, no sentinel hypothesis, exceptions included (IndexError, ZeroDivisionError, UnboundLocalError also when every distance is inf/NaN)"),
+    ("TracklibVerif.Tie.C20", "TV.Tie.C20.tie_proj_polyligne_exact", "EXACT: the translation of the CURRENT source of geometry.proj_polyligne (initial answer Xp[0], Yp[0], 0; for loop; sentinel 1e400 = inf; continue; `if distmin == inf: distmin = sqrt(pow(x - xproj, 2) + pow(y - yproj, 2))`) equals the sentinel-faithful model projPolyligneXYS (np=false, same sentinel inf, sq v = pow v 2, eps=1e-16) on ALL arguments, no hypothesis, exceptions included (IndexError on empty / shorter sequences, ZeroDivisionError)"),
     ("TracklibVerif.Tie.C20", "TV.Tie.C20.tie_proj_polyligne_pairs_exact", "EXACT: the translated proj_polyligne on the abscissas/ordinates of a vertex list equals the sentinel-faithful kernel model projPolyligneS on ALL arguments, no hypothesis"),
-    ("TracklibVerif.Tie.C20", "TV.Tie.C20.tie_proj_polyligne_from_exact", "tie_proj_polyligne is a corollary of the exact tie and the agreement lemma: the sentinel hypothesis only passes from the sentinel-faithful model to the none-state model"),
-    ("TracklibVerif.Lemmas.ProjSentinel", "TV.Proj.projPolyligneXYS_eq", "agreement: if every distance met (non-skipped segment, proj_segment returns) is < inf, the sentinel-faithful projPolyligneXYS equals projPolyligneXY (any argument form), exceptions included"),
-    ("TracklibVerif.Lemmas.ProjSentinel", "TV.Proj.projPolyligneXYS_eq_false", "the same with Python numbers, hypothesis stated on the kernel projSegment (literally hinf of tie_proj_polyligne)"),
-    ("TracklibVerif.Lemmas.ProjSentinel", "TV.Proj.projPolyligneS_eq", "agreement on a vertex list: projPolyligneS = projPolyligne under the same hypothesis"),
-    ("TracklibVerif.Lemmas.ProjSentinel", "TV.Proj.projPolyligneXYS_single_not_lt", "the hypothesis separates the two forms: one kept segment with a distance not < inf -> the S-form raises UnboundLocalError (as the code), the none-state form returns the segment"),
+    ("TracklibVerif.Tie.C20", "TV.Tie.C20.tie_proj_polyligne", "the translated proj_polyligne equals the none-state model projPolyligneXY of the property theorems (np=false, eps=1e-16), exceptions included, under the explicit hypotheses that separate the two renderings of the sentinel: kept distances < inf, d < inf -> not d == inf, inf == inf, pow v 2 = v * v (corollary of the exact tie and the agreement lemma)"),
+    ("TracklibVerif.Tie.C20", "TV.Tie.C20.tie_proj_polyligne_pairs", "the same on the abscissas/ordinates of a vertex list: the kernel model projPolyligne on the vertices"),
+    ("TracklibVerif.Tie.C20", "TV.Tie.C20.proj_polyligne_sentinel_deviation", "the sentinel hypothesis cannot be dropped: on one kept segment whose distance is not < inf the code keeps nothing and answers from its initial state (the first vertex, finishS) while the none-state model returns the segment"),
+    ("TracklibVerif.Lemmas.ProjSentinel", "TV.Proj.projPolyligneXYS_eq", "agreement: if every distance met (non-skipped segment, proj_segment returns) is < inf, d < inf -> not d == inf, inf == inf and sq v = v * v, the sentinel-faithful projPolyligneXYS equals projPolyligneXY (any argument form), exceptions included"),
+    ("TracklibVerif.Lemmas.ProjSentinel", "TV.Proj.projPolyligneXYS_eq_false", "the same with Python numbers, the sentinel hypothesis stated on the kernel projSegment (literally hinf of tie_proj_polyligne)"),
+    ("TracklibVerif.Lemmas.ProjSentinel", "TV.Proj.projPolyligneS_eq", "agreement on a vertex list: projPolyligneS = projPolyligne under the same hypotheses"),
+    ("TracklibVerif.Lemmas.ProjSentinel", "TV.Proj.projPolyligneXYS_single_not_lt", "the hypothesis separates the two forms: one kept segment with a distance not < inf -> the S-form answers from the first vertex (finishS on the initial state, as the code), the none-state form returns the segment"),
 ]
